@@ -260,7 +260,10 @@ def run_td3_lap(sc):
 
 
 # ------------------------------------------------------------------ scenarios
-def scenarios(tier, seed):
+VALUE_BASED = {"dqn", "nature_dqn", "ddqn", "ddqn_per", "q_learning", "sarsa", "double_q_learning", "monte_carlo", "dynaq"}
+
+
+def scenarios(tier, seed, routine=None):
     """Episode scripts incl. one-step episodes, truncation and termination, an episode boundary exactly at the
     warm-up boundary, capacities smaller than the run (wrap-around), start counts > 0, episode limits."""
     base = dict(seed=seed % 1000 + 1, batch=2, cap=7)
@@ -269,6 +272,12 @@ def scenarios(tier, seed):
         dict(base, label="B", script=[(2, "trunc"), (3, "term"), (1, "term")], budget=17, start=3, eplimit=0, warm=5),
         dict(base, label="C", script=[(4, "term"), (2, "trunc"), (3, "term")], budget=30, start=0, eplimit=4, warm=4),
     ]
+    if routine in VALUE_BASED:
+        # exploration discipline (C13): epsilon interposed to 0 (always greedy after warm-up) and to 1 (never greedy)
+        scs += [
+            dict(base, label="E0", script=[(3, "term"), (2, "trunc"), (4, "term")], budget=18, start=0, eplimit=0, warm=3, epsilon=0.0),
+            dict(base, label="E1", script=[(3, "term"), (2, "trunc")], budget=12, start=0, eplimit=0, warm=2, epsilon=1.0),
+        ]
     if tier == "thorough":
         scs += [
             dict(base, label="D", script=[(1, "term"), (1, "trunc"), (5, "term")], budget=24, start=2, eplimit=5, warm=7, cap=50),
